@@ -422,7 +422,7 @@ class ConfigParser(object):
           "Entry [{section}]: '{key}' already exists in configuration file whilst adding value = {value}".format(
           section = override.section, key = override.key, value = override.value))
 
-      if not cp.has_section(override.section):
+      if not cp.has_section(override.section) and override.section != cp.default_section:
         cp.add_section(override.section)
       cp[override.section][override.key] = override.value
 
